@@ -29,6 +29,7 @@ __CPROVER_requires(g_ndgo < ((size_t)1 << 41))
 __CPROVER_ensures(g_ndgo == __CPROVER_old(g_ndgo) + 1 && self->delta_ == __CPROVER_old(self->delta_) && g_delta_at_dgo == self->delta_)
 __CPROVER_assigns(g_ndgo, g_delta_at_dgo, self->group_delta_, self->join_type_, self->end_type_, self->step_sin_, self->step_cos_, self->steps_per_rad_, self->path_out, self->norms);
 bool CheckReverseOrientation(ClipperOffsetS* self)
+BOOL_RET
 LOG_REQ(FN_CHECKREV) LOG_ENS(FN_CHECKREV, __CPROVER_return_value, 0,0,0,0,0, 0,0,0,0)
 __CPROVER_assigns(LOG_ASG(FN_CHECKREV));
 #define REVERSED (I_(FN_CHECKREV,0,0) != 0)
